@@ -250,5 +250,6 @@ int main(void) {
         else printf("? BADCMD\n");
         fflush(stdout);
     }
+    free(line);
     return 0;
 }
